@@ -488,6 +488,12 @@ class Emitter:
             # deduced (or unprintable) return type: take the type of the returned expression
             d = self.deduced_return(fn) or 'void'
             r = d + (' &' if (isref and not d.strip().endswith('&')) else '')
+        elif r.startswith('typename '):
+            # a dependent spelling clang does not desugar in the function type (asio's
+            # constraint<...>::type): the returned expression carries the desugared type
+            d = self.deduced_return(fn)
+            if d and d.strip() in ('void',) + tuple(INT_TYPES):
+                r = d
         return r
 
     def deduced_return(self, fn):
@@ -534,6 +540,8 @@ class Emitter:
                 continue
             ti = self.T(qt(p))
             nm = p.get('name') or ('_unnamed%d' % len(params))
+            if nm == 'self' and params:
+                nm = 'self_p'     # a parameter called `self` next to the object / closure parameter
             ctx.locals[p['id']] = (nm, ti)
             params.append(self.decl(ti, nm, byref=ti.ref))
         if kind == 'CXXConstructorDecl':
@@ -630,6 +638,20 @@ class Emitter:
                 if c.get('type', {}).get('qualType', '').replace(' ', '') == want:
                     return c
         return None
+
+    def find_ctor_by_args(self, rd, args):
+        """constructor (instantiation) of record rd taking exactly these argument expressions
+        (container::emplace_back(args...): the construction happens inside the library)"""
+        def norm(t):
+            return strip_cv(t.replace('&', '').strip()).replace('boost::mqtt5::', '').replace(' ', '')
+        want = [norm(qt(a)) for a in args]
+        cands = []
+        for c in self.all_members(rd):
+            if c.get('kind') == 'CXXConstructorDecl' and has_body(c):
+                ps = params_of(c)
+                if len(ps) == len(args) and [norm(qt(p_)) for p_ in ps] == want:
+                    cands.append(c)
+        return cands[0] if cands else None
 
     def all_members(self, rd):
         for c in rd.get('inner', []):
